@@ -215,6 +215,24 @@ Theorem C15_expansion_is_override : forall (T : Type) (SC : Scalar T) (e : env (
 Proof. exact @canon_is_override. Qed.
 Print Assumptions C15_expansion_is_override.
 
+(* deck level: [tblc] holds, for every cell of the deck (LIKE or explicit), the
+   text of the card constructed for it — a deck without any LIKE card, every
+   keyword written once; whenever the LIKE deck parses, that deck parses to the
+   same cells (same order, same values, same skipped cells) *)
+Theorem C15_expansion_deck : forall (T : Type) (SC : Scalar T) (e : env (T:=T))
+    (tbl tblc : table) (cells : list (Z * cell (T:=T))),
+  NoDup (map fst tbl) -> canon_table SC e tbl tblc ->
+  parse_all SC e tbl = Ok cells -> parse_all SC e tblc = Ok cells.
+Proof. exact @canon_deck. Qed.
+Print Assumptions C15_expansion_deck.
+
+Example C15_example_expansion_deck :
+  canon_table RS (xenv 0%R 1%R) xtbl
+    [(1%Z, ("1 -1.0", " -1 ", "imp:n 0"));
+     (2%Z, ("2 -1.0", " -1 ", "imp:n 1"));
+     (3%Z, ("2 -2.5", " -1 ", "imp:n 1 *trcl 0"))] /\ NoDup (map fst xtbl).
+Proof. exact (example_canon_table RS 0%R 1%R). Qed.
+
 Example C15_example_expansion_card :
   option_map (@card_text)
     (match canon_card RS (xenv 0%R 1%R)
